@@ -473,13 +473,31 @@ impl EvalResult {
     ///
     /// Note that this function is actually more constrained than the SPARQL spec.
     /// In SPARQL, the order is partial,
-    /// while this function falls back to the total order defined by [`Term::cmp`].
+    /// while this function defines a total preorder that is consistent with [`sparql_cmp`](Self::sparql_cmp):
+    /// terms are sorted by kind (as in [`Term::cmp`]),
+    /// then literals are sorted by the class of values that `<` can compare
+    /// (see [`SparqlValue::order_class`]),
+    /// then by value inside such a class,
+    /// or by [`Term::cmp`] for all other terms.
+    ///
+    /// NB: mixing value comparison and [`Term::cmp`] for literals of different classes
+    /// would not be transitive
+    /// (e.g. `2 < 10` by value, but `10 < "1x"^^xsd:integer < 2` as terms).
     pub fn sparql_order_by(&self, other: &Option<Self>) -> Ordering {
-        if let Some(val) = other {
-            self.sparql_cmp(val)
-                .unwrap_or_else(|| Term::cmp(&self.as_term(), val.as_term()))
-        } else {
-            Ordering::Greater
+        let Some(other) = other else {
+            return Ordering::Greater;
+        };
+        let class = |er: &Self| er.as_value().map_or(0, SparqlValue::order_class);
+        match (self.as_value(), other.as_value(), class(self), class(other)) {
+            (Some(v1), Some(v2), c1, c2) if c1 == c2 && c1 != 0 => v1.order_cmp(v2),
+            (_, _, c1, c2) => {
+                let t1 = self.as_term();
+                let t2 = other.as_term();
+                t1.kind()
+                    .cmp(&t2.kind())
+                    .then(c1.cmp(&c2))
+                    .then_with(|| Term::cmp(&t1, &t2))
+            }
         }
     }
 }
